@@ -475,7 +475,12 @@ func (c *Client) Mail(from string, opts *MailOptions) error {
 	}
 	if opts != nil && opts.Auth != nil {
 		if _, ok := c.ext["AUTH"]; ok {
-			fmt.Fprintf(&sb, " AUTH=%s", encodeXtext(*opts.Auth))
+			if *opts.Auth == "" {
+				// A non-nil empty string stands for AUTH=<> (see MailOptions.Auth).
+				sb.WriteString(" AUTH=<>")
+			} else {
+				fmt.Fprintf(&sb, " AUTH=%s", encodeXtext(*opts.Auth))
+			}
 		}
 		// We can safely discard parameter if server does not support AUTH.
 	}
